@@ -238,6 +238,28 @@ def run(tier):
         for e in r["dump"]["doc"]["errors"] + r["dump"]["doc"]["warnings"]:
             ndiag += 1
             check_diag(c, e, None, None, "xta", {"xta": xta, "fault": fc, "faulted": ftext, "diagnostic": [e["msg"], e["path"], e["sl"], e["sc"], e["el"], e["ec"]]}, plain_text=xta)
+    # ---- B2. the repository's LSC model: one fault in every message / condition / update label and in the instance names
+    lsc_path = os.path.join(vf.REPO, "test/models/lsc_example.xml")
+    nlsc = 0
+    if os.path.exists(lsc_path):
+        base = open(lsc_path).read()
+        ljobs = []
+        for mm in re.finditer(r'(<label kind="(message|condition|update)"[^>]*>)([^<]*)(</label>)', base):
+            for fc, ftext in (("undeclared", "nosuch_zz"), ("stray-symbol", mm.group(3) + " @"), ("dangling-operator", mm.group(3) + " +")):
+                ljobs.append({"id": "L%d" % len(ljobs), "entry": "xml_buffer", "text": base[:mm.start(3)] + ftext + base[mm.end(3):], "structure": False, "fault": fc, "kind": mm.group(2)})
+        lres = vf.run_jobs(ljobs, c.run_dir, variant="plain", name="c06lsc")
+        for j in ljobs:
+            r = lres[j["id"]]
+            if r.get("main", {}).get("outcome") != "return" or r.get("dump", {}).get("outcome") != "return":
+                continue
+            nlsc += 1
+            body = j["text"].split("?>", 1)[1]
+            body = body[body.index("<nta"):]
+            root = ET.fromstring(body)
+            for e in r["dump"]["doc"]["errors"] + r["dump"]["doc"]["warnings"]:
+                ndiag += 1
+                check_diag(c, e, root, j["text"], "lsc-" + j["kind"], {"xml": j["text"], "fault": j["fault"], "diagnostic": [e["msg"], e["path"], e["sl"], e["sc"], e["el"], e["ec"]]})
+    c.cov["lsc_fault_cases"] = nlsc
     # ---- C. every path the real reader hands to setPath, on the base document and all its structural mutations, names exactly one element
     rc = readerconf.run(c, quick, variant="plain")
     npaths = 0
